@@ -390,9 +390,14 @@ def pipeline(mod, pid, tier, seed, args, work, t0):
             hist = mod.histogram(cases, obs)
         except Exception as e:
             hist = {"error": str(e)}
+    def _cap(x, limit=6000):
+        """evidence must stay small: a sample larger than `limit` characters of JSON is cut
+        to a prefix string (the complete case can be regenerated from the seed)"""
+        t = jdump(x)
+        return x if len(t) <= limit else {"truncated_json_prefix": t[:limit], "full_length": len(t)}
     samples = []
     for j in range(min(3, len(cases))):
-        samples.append({"case": cases[j], "observation": obs[j]})
+        samples.append({"case": _cap(cases[j]), "observation": _cap(obs[j])})
     ev = {
         "property_id": pid, "tier": tier, "seed": seed, "level": "proof",
         "coverage": {
@@ -413,7 +418,7 @@ def pipeline(mod, pid, tier, seed, args, work, t0):
             "model_mismatches": len(mism),
             "oracle_failures_unlisted": len(failing),
             "known_finding_hits": {k: len(v) for k, v in known_hits.items()},
-            "histogram": hist,
+            "histogram": _cap(hist, 20000),
             "modelled_vs_proved": getattr(mod, "MODELLED", ""),
             "notes": notes[:10],
         },
